@@ -346,11 +346,79 @@ Section Obs.
     (read_doc fn sd, read_doc fn dd, read_doc fn dd').
 End Obs.
 
-(* what the harness emits: the repr() table of the floats occurring in the documents + the case *)
-Record case_sync := { cs_ftab : list (fl * str); cs_case : scase }.
+(* ------------------------------------------------------------------ permission bits (observed, not part of [node]) *)
+(* One row per regular file of either workspace whose permission bits are not PERM_DEFAULT before or after the
+   observed call: side (true = destination), workspace path (job id :: path inside the job), st_mode & 07777
+   before and after.  A file without a row has PERM_DEFAULT before and after (so has a path that holds no file). *)
+Record perm_row := { pr_dst : bool; pr_path : path; pr_before : N; pr_after : N }.
+Definition PERM_DEFAULT : N := 420%N.       (* 0o644 *)
+
+Definition perm_find (rows : list perm_row) (dstside : bool) (p : path) : option perm_row :=
+  find (fun r => Bool.eqb (pr_dst r) dstside && path_eqb (pr_path r) p) rows.
+Definition perm_before (rows : list perm_row) (dstside : bool) (p : path) : N :=
+  match perm_find rows dstside p with Some r => pr_before r | None => PERM_DEFAULT end.
+
+(* what the harness emits: the repr() table of the floats occurring in the documents + the case + the permission rows *)
+Record case_sync := { cs_ftab : list (fl * str); cs_case : scase; cs_perm : list perm_row }.
 Definition cs_frepr (c : case_sync) : fl -> str := ftab_get (cs_ftab c).
 
-Definition mismatch_case (c : case_sync) : bool := mismatch_sync (cs_frepr c) (cs_case c).
+(* the source file a destination workspace path is copied from *)
+Definition src_path_of (i : sinput) (p : path) : path :=
+  match i_entry i, p with
+  | E_job sid did _, k :: q => if str_eqb k did then sid :: q else p
+  | _, _ => p
+  end.
+
+(* a job's own state point / document file (written by signac, not copied — unless DocSync.COPY): the model of the
+   permission bits makes no claim about them in a real run *)
+Definition own_ws_path (p : path) : bool :=
+  match p with
+  | [_; n] => str_eqb n FN_SP || str_eqb n FN_DOC
+  | _ => false
+  end.
+
+(* Model of the permission bits, derived from the executed tree model: shutil.copy / copy2 / copytree carry the
+   source file's bits along with its bytes (whatever preserve_permissions says), and nothing else touches bits.
+   A file the model writes has mtime NOW; every other file keeps its bits; the source is never touched. *)
+Definition perm_predicted (i : sinput) (rows : list perm_row) (m : sobs) (r : perm_row) : N :=
+  if pr_dst r then
+    if own_ws_path (pr_path r) && negb (o_dry_run (i_opts i)) then pr_after r
+    else match file_at (pr_path r) (p_ws (ob_dst m)) with
+         | Some (_, mt) => if Z.eqb mt NOW then perm_before rows false (src_path_of i (pr_path r)) else pr_before r
+         | None => pr_after r       (* no file predicted there: the tree comparison speaks *)
+         end
+  else pr_before r.
+
+Definition perm_mismatch (c : case_sync) : bool :=
+  let i := c_in (cs_case c) in
+  let o := c_obs (cs_case c) in
+  negb (i_unmodelled i)
+  && (let m := model_call (cs_frepr c) cfg_current (i_opts i) (i_entry i) (i_src i) (i_dst i) in
+      let skip_dst := i_parallel i && negb (is_none (ob_exn m)) in     (* schedule dependent, see obs_differs *)
+      existsb (fun r => negb (skip_dst && pr_dst r) && negb (N.eqb (perm_predicted i (cs_perm c) m r) (pr_after r)))
+              (cs_perm c)).
+
+(* oracle clauses over the observation *)
+(* C15, dry_run: no permission bit changes anywhere *)
+Definition perm_all_unchanged (rows : list perm_row) : bool :=
+  forallb (fun r => N.eqb (pr_before r) (pr_after r)) rows.
+Definition perm_dry_ok (c : case_sync) : bool :=
+  negb (o_dry_run (i_opts (c_in (cs_case c)))) || perm_all_unchanged (cs_perm c).
+(* C13 / C14, "touches nothing else" / "leaving that file untouched": the source keeps its bits; a destination file
+   that was not rewritten (same bytes, same mtime as before the call — destination-only files, files the strategy
+   declined, excluded files, identical files) keeps its bits *)
+Definition perm_frame_ok (c : case_sync) : bool :=
+  let i := c_in (cs_case c) in
+  let o := c_obs (cs_case c) in
+  forallb (fun r =>
+             N.eqb (pr_before r) (pr_after r)
+             || (pr_dst r
+                 && match file_at (pr_path r) (p_ws (i_dst i)), file_at (pr_path r) (p_ws (ob_dst o)) with
+                    | Some (c1, m1), Some (c2, m2) => negb (content_eqb (cs_frepr c) c1 c2 && Z.eqb m1 m2)
+                    | _, _ => true
+                    end)) (cs_perm c).
+
+Definition mismatch_case (c : case_sync) : bool := mismatch_sync (cs_frepr c) (cs_case c) || perm_mismatch c.
 
 (* idx*100 + tag for every case on which [tagf] returns a non-zero tag *)
 Fixpoint tagged_aux (tagf : case_sync -> N) (l : list case_sync) (i : N) : list N :=
